@@ -414,6 +414,8 @@ def generate():
     from extract_c14 import extract_transforms, lean_transforms_table
     parts.append(lean_transforms_table(extract_transforms()))
     parts.append(extract_aliases())
+    from extract_c12 import extract_c12
+    parts.append(extract_c12())
     parts.append("end FormulaeModel.Generated\n")
     return "\n".join(parts), dict(parser=p, resolver=r)
 
